@@ -67,7 +67,23 @@ type ShutSpec struct {
 
 var topicPool = []string{"", "a", "b", "c"}
 
+// widePool is the alphabet of the occasional wide topic set: 1..12 cyclically consecutive
+// topics, ascending or descending (subscriptions and messages with many topics, unsorted).
+var widePool = []string{"", "a", "b", "c", "d", "e", "f", "g", "h", "i", "j", "k"}
+
 func genTopicSet(t *rapid.T) []string {
+	if stats.Pct(t, "widetopics") >= 88 {
+		n, start, desc := 1+stats.Pick(t, len(widePool), "nwide"), stats.Pick(t, len(widePool), "widestart"), rapid.Bool().Draw(t, "widedesc")
+		out := make([]string, n)
+		for i := range out {
+			k := i
+			if desc {
+				k = n - 1 - i
+			}
+			out[k] = widePool[(start+i)%len(widePool)]
+		}
+		return out
+	}
 	mask := 1 + stats.Pick(t, 14, "topicmask")
 	var out []string
 	for i, tp := range topicPool {
